@@ -186,7 +186,8 @@ SPECS["C15"] = {
     "translator": wire_translator,
     "coq_targets": ["Properties/C15.vo", "Checks/C15check.vo", "GenChecks/C15.vo"],
     "gen_obligations": ["gen_client_message_shape", "gen_response_shape", "gen_client_message_shape_wf",
-                        "gen_response_shape_wf", "gen_kind_types", "gen_kind_ser_table", "gen_kind_de_table"],
+                        "gen_response_shape_wf", "gen_kind_types", "gen_kind_ser_table", "gen_kind_de_table",
+                        "gen_default_deadline_wire"],
     "cases_header": WIRE_HDR.format(mods="Shipped Checks.C15check"),
     "case_term": lambda c: f"({c['cfg']}, {c['ops']}, {c['obs']})",
     "quick": {"count": 160},
@@ -210,15 +211,18 @@ SPECS["C15"] = {
             "fragmented / Pending, or the stream was cut, or a hand-written payload / non-portable kind / full bounded "
             "channel / end-after-drop / 64 KiB+ body was involved; distinct = distinct script text; thorough adds the "
             "bounded-exhaustive family: every stable io::ErrorKind x {bincode, json, bounded, unbounded}, every boundary "
-            "id x 4 chunking classes x 4 transports, every cut position 1..39 (except the documented header-only "
-            "position 4) of a two-frame stream, and 70 000-byte and 1 MiB bodies",
+            "id x 4 chunking classes x 4 transports, every cut position 1..39 of a two-frame stream, and 70 000-byte and 1 MiB bodies",
     "trusted_base": COMMON_TB + WIRE_TB + [
         "JSON text: the model prints value trees with its own compact printer (compared byte for byte with "
         "serde_json::to_vec through the real transport); it has no text parser, so for the reading direction the model "
         "decodes the value tree of the frame at the same position (hand-written payloads: the tree produced by the "
         "harness's own small order-preserving JSON parser)",
     ],
-    "level_text": "Theorems C15_bincode_roundtrip(_response), C15_json_tree_roundtrip(_response): decode (encode m) = Some m "
+    "level_text": "Main theorem C15_monitor: for every configuration (bincode/json framed transport under every list of read "
+                  "chunk sizes and every cut position, bounded/unbounded channel) and every script of "
+                  "well-formed messages, raw payloads, reads and closes, the monitor accepts the model's run (what is read is what "
+                  "was written, in order, then end-of-stream; a stream cut inside a frame yields exactly the whole frames, then the end). "
+                  "It composes: C15_bincode_roundtrip(_response), C15_json_tree_roundtrip(_response): decode (encode m) = Some m "
                   "for every ClientMessage and Response value (all variants, every u64 id, every body, every trace context, "
                   "every Duration, every error kind up to the documented degradation), derived from two generic theorems "
                   "(C15_*_roundtrip_schema) that hold for ANY serde shape satisfying the generated side condition schema_wf; "
@@ -236,7 +240,8 @@ SPECS["C15"] = {
                   "not modelled (the model decoder accepts any bytes); TCP/UDS sockets are represented by an arbitrary "
                   "scripted byte stream. Boundary (refutation lemma C15_truncated_header_refuted, script in the design "
                   "notes): a stream cut exactly after a 4-byte length header reads as a clean end-of-stream, not an error "
-                  "(tokio-util decode_eof); the generator avoids that one cut position, the monitor does not excuse it. "
+                  "(tokio-util decode_eof); C15 only demands that no frame is made up and the stream ends, the error clause is "
+                  "checked by C16 (known finding there). "
                   "Correspondence is sampled, not proved.",
     "design_ref": "DESIGN.md section 6 (C15)",
     "assumptions": ["bodies are valid UTF-8 strings shorter than 2^64 bytes; frames fit LengthDelimitedCodec's default "
@@ -315,3 +320,188 @@ SPECS["C17"] = {
                     "identifiers are ASCII; cfg predicates are evaluated once per compilation"],
 }
 
+
+
+# ------------------------------------------------------------------------------------------------
+# Server side (harness/src/srv.rs, coq/Server.v, coq/ServerMon.v): C08, C12, C06, C04.
+# One script language and one case format; --prop only biases the generator.
+
+SRV_HDR = HDR.format(mods="Transport TimerWheel Server ServerMon Checks.{chk}")
+SRV_TB = COMMON_TB + [
+    "modelled, not verified: tokio bounded mpsc (FIFO permit waiters; a permit returns when the receiver pops), "
+    "tokio unbounded mpsc, futures Abortable (abort flag checked before the inner future is polled), Fuse, "
+    "tokio-util DelayQueue at millisecond granularity (a timer is due when clock >= start + when_ms); the order "
+    "in which the real timer wheel hands out several due timers is replayed by an executable copy of the wheel "
+    "(coq/TimerWheel.v) that the theorems do not depend on: a disagreement surfaces as the observation OOracle",
+    "harness: virtual clock by clock_gettime interposition + tokio paused clock; every poll by hand outside any "
+    "runtime task; scripted transport (Rust twin of Transport.v's stransport)",
+]
+SRV_RULE = ("scripts over ops {P poll Requests, R request, X cancel, E eof, r/f/c sink answers, F<m> one-shot fault, "
+            "D drain, H<k> handler step through the real execute(), Q/Y drop execute future / unexecuted request, "
+            "Z drop channel, A advance clock}; cfg: limit none/0..3, response buffer 1..3, transport capacity "
+            "0..3 coupled/independent; 6..60 ops (C11 bias: a sixth of the scripts 300..420 ops); generated WHILE "
+            "RUNNING the real code so that the next op can look at the real in-flight count, handler phases, "
+            "clock and sink state; all randomness from one splitmix64 stream; distinct = distinct script text; ")
+
+
+def _srv_known_bit(pid):
+    """Known-class predicate on the SHRUNK script: re-run it and ask the check function whether the
+    rejection is fully explained by the known class (verdict bit 2: the full-strength monitor rejects,
+    the relaxed monitor that exempts exactly that class's obligations accepts)."""
+    def pred(small):
+        import os
+        from . import vcheck as V
+        odir = os.path.join(V.OUT, pid)
+        os.makedirs(odir, exist_ok=True)
+        ops = os.path.join(odir, "known.ops.txt")
+        tsv = os.path.join(odir, "known.cases.tsv")
+        with open(ops, "w") as f:
+            f.write(small + "\n")
+        V.harness(["srv", "run", "--in", ops, "--out", tsv])
+        cases = V.read_cases(tsv)
+        codes = V.eval_cases(pid, SPECS[pid], cases)
+        return bool(codes[0] & 4)
+    return pred
+
+
+def _srv_spec(pid, chk, bias, nontrivial, rule_tail, level_text, level_note, assumptions, quick=450, thorough=16000, **extra):
+    s = {
+        "pid": pid,
+        "harness": "srv",
+        "gen_args": ["--prop", bias],
+        "coq_targets": [f"Properties/{pid}.vo", f"Checks/{chk}.vo"],
+        "cases_header": SRV_HDR.format(chk=chk),
+        "case_term": lambda c: f"({c['cfg']}, {c['ops']}, {c['obs']})",
+        "quick": {"count": quick},
+        "thorough": {"count": thorough},
+        "sweeps": [["--prop", bias]],
+        "nontrivial": nontrivial,
+        "rule": SRV_RULE + rule_tail,
+        "trusted_base": SRV_TB,
+        "level_text": level_text,
+        "level_note": level_note,
+        "design_ref": f"DESIGN.md section 6 ({pid}), section 7 (K1, K2, B1), Appendix A.2",
+        "assumptions": assumptions,
+        "max_shrinks": 3,
+        "shrink_budget": 24,
+    }
+    s.update(extra)
+    return s
+
+
+SRV_ASSUME_ATOMIC = ("one op (one poll of the Requests stream, one poll or drop of one execute() future, one "
+                     "delivery, one clock step) is atomic; handlers run on the thread that polls the channel")
+SRV_ASSUME_B1 = ("reuse_only_after_completion (B1): the peer re-sends a request id only while it is surely in flight "
+                 "(duplicate) or after a response bearing it was transmitted; necessary, see the _refuted theorem")
+SRV_ASSUME_STOP = ("stops_after_error: the application does not poll the Requests stream again after it yielded an "
+                   "error (tarpc's execute() stops there); the server does not latch transport failures")
+SRV_ASSUME_CLOCK = "virtual clock below 2^35 ms (the DelayQueue's idle-wheel range limit is an environment hypothesis of C16)"
+
+SPECS["C08"] = _srv_spec(
+    "C08", "C08check", "c08",
+    nontrivial=lambda c: "yield" in c["tags"] and ("resp-write" in c["tags"] or "req-dup-inflight" in c["tags"]
+                                                   or "handler-aborted" in c["tags"]),
+    rule_tail="C08 bias: fresh / duplicate-in-flight / reused-after-completion ids, cancels and closes interleaved, "
+              "handler completion in every order, response buffers 1..3; non-trivial = the real channel yielded a "
+              "request and then wrote a response, ignored a duplicate, or aborted a handler",
+    level_text="TO BE FILLED", level_note="TO BE FILLED",
+    assumptions=[SRV_ASSUME_ATOMIC, SRV_ASSUME_B1, SRV_ASSUME_STOP],
+)
+SPECS["C12"] = _srv_spec(
+    "C12", "C12check", "c12",
+    nontrivial=lambda c: "throttle" in c["tags"] or "yield-fills-limit" in c["tags"],
+    rule_tail="C12 bias: limits 0..3, cancels adjacent to requests (K1's shape), handler completion and response "
+              "writing in every order, sink not ready; non-trivial = the real limiter throttled a request or a yield "
+              "filled the limit",
+    level_text="TO BE FILLED", level_note="TO BE FILLED",
+    assumptions=[SRV_ASSUME_ATOMIC],
+    known_sigs={"FreedInSamePoll": _srv_known_bit("C12")},
+    known_witness={"FreedInSamePoll": "L=1,B=1,C=0,K=c|R1.1000.7.5 P X1.7 R2.1000.7.6 P"},
+)
+SPECS["C06"] = _srv_spec(
+    "C06", "C06check", "c06",
+    nontrivial=lambda c: any(t in c["tags"] for t in ("poll@deadline", "poll@deadline-1", "poll@deadline+1",
+                                                       "aborted-after-deadline", "expired-on-arrival")),
+    rule_tail="C06 bias: clock steps to deadline-1 / deadline / deadline+1 of a live request, deadlines from already "
+              "expired to beyond the timer range, limiter x sink-not-ready x clock steps; non-trivial = the real "
+              "channel was polled within 1 ms of a live request's deadline, or aborted a handler after its deadline, "
+              "or received a request that had already expired",
+    level_text="TO BE FILLED", level_note="TO BE FILLED",
+    assumptions=[SRV_ASSUME_ATOMIC, SRV_ASSUME_B1, SRV_ASSUME_STOP, SRV_ASSUME_CLOCK],
+    known_sigs={"LimiterBlockedOnSink": _srv_known_bit("C06")},
+    known_witness={"LimiterBlockedOnSink": "L=1,B=1,C=0,K=c|R1.100.7.5 P H0 r0 A400 P H0 r1 P H0"},
+)
+SPECS["C04"] = _srv_spec(
+    "C04", "C04check", "c04",
+    nontrivial=lambda c: any(t in c["tags"] for t in ("cancel@notstarted", "cancel@running", "cancel@waitbuf",
+                                                       "cancel@buffered", "cancel@written", "chain")),
+    rule_tail="C04 bias: a Cancel at every position relative to handler start, completion, response buffering and "
+              "response write, 1..4 concurrent requests, with/without limiter, sink-not-ready periods; plus real "
+              "client->server chains of depth 1..3; non-trivial = the real channel read a Cancel for a request it had "
+              "yielded (any phase), or a chain was run",
+    level_text="TO BE FILLED", level_note="TO BE FILLED",
+    assumptions=[SRV_ASSUME_ATOMIC, SRV_ASSUME_B1, SRV_ASSUME_STOP],
+)
+
+
+# ---------------------------------------------------------------------------------------------
+# Client-side parts: one driver (harness `cli`), one model (Client.v), one monitor fold
+# (ClientMon.v); each property has its own Checks module selecting its verdict.
+CLIENT_TB = [
+    "modelled, not verified: tokio bounded/unbounded mpsc, tokio oneshot, tokio-util DelayQueue "
+    "(ms granularity), futures Fuse, as sequential data structures (Client.v header)",
+    "the transport is universally quantified in the theorems (any state type, any behaviour); the "
+    "correspondence runs the scripted instance (Transport.v `stransport`, harness/src/stransport.rs)",
+    "virtual time: the harness interposes clock_gettime (harness/src/vclock.rs) and advances "
+    "tokio's paused clock by the same amount",
+    "verification hooks under --cfg tarpc_verif: read-only gauges, yield points in ResponseGuard::drop",
+]
+CLIENT_RULE = ("scripts over ops {clone/drop handle, call(deadline,trace,body), poll call, drop call "
+               "(atomic or split close/cancel via the yield hook), poll dispatch, drop dispatch, advance clock, "
+               "deliver response/server error/eof, set ready/flush/close, one-shot fault per transport "
+               "method, drain}; request buffer 1..3, in-flight limit 1..3, transport capacity 0..3 coupled or "
+               "independent; state-aware generation from one splitmix64 stream, biased per property "
+               "(--prop); 6..45 ops (40..120 for C11)")
+
+
+def client_part(prop, checks_mod, nontrivial, extra_rule, quick=500, thorough=20000, name="client"):
+    return {
+        "name": name,
+        "harness": "cli",
+        "gen_args": ["--prop", prop],
+        "cases_header": HDR.format(mods=f"Transport Client ClientS ClientMon Checks.{checks_mod}"),
+        "case_term": lambda c: f"({c['cfg']}, {c['ops']}, {c['obs']})",
+        "quick": {"count": quick},
+        "thorough": {"count": thorough},
+        "nontrivial": nontrivial,
+        "rule": CLIENT_RULE + "; non-trivial = " + extra_rule + "; distinct = distinct script text",
+    }
+
+
+def has(*tags):
+    return lambda c: any(t in c["tags"] for t in tags)
+
+
+SPECS["C14"] = {
+    "pid": "C14",
+    "coq_targets": ["Properties/C14.vo", "Checks/C14client.vo"],
+    "parts": [client_part("c14", "C14client", has("sink-not-ready", "send-failed", "fault-armed"),
+                          "the real dispatch met a not-ready sink, a failed write or an armed fault")],
+    "trusted_base": COMMON_TB + CLIENT_TB,
+    "level_text": "Client half proved: C14_client_contract - for EVERY transport (any state type and behaviour), "
+                  "configuration and op list, the per-poll transport call log of the client dispatch model satisfies the "
+                  "contract monitor (write only when licensed by poll_ready->Ready(Ok); never after close or after a "
+                  "ready/flush/close failure; never idle with unflushed writes unless the flush/close is pending or the "
+                  "transport failed; bounded re-polling of a not-ready sink); C14_client_poll_total - every dispatch poll "
+                  "terminates within fuel linear in the queue lengths on the scripted transport. The model is tied to the real "
+                  "RequestDispatch by replaying generated scripts (not-ready sinks, capacity-1 coupled/independent "
+                  "transports, faults) and comparing every transport call inside Coq; the same monitor runs on the real "
+                  "call logs and a poll is aborted after 10 000 transport calls.",
+    "level_note": "Server half (Requests/MaxRequests) is being added; until then C14 is claimed for the client dispatch only. "
+                  "Trusted: Coq kernel, vm_compute, harness, driver. Modelled not verified: tokio/futures primitives. "
+                  "Correspondence is sampled. The repaired ensure_writeable (fix: 67e6e2e) is what the model describes; the "
+                  "pre-fix spin is re-detected when that commit is reverted.",
+    "design_ref": "DESIGN.md section 6 (C14)",
+    "assumptions": ["one op is atomic (one poll, one drop step, one delivery)",
+                    "fewer than 2^64 operations where a statement says no_wrap"],
+}
